@@ -34,6 +34,7 @@ import (
 type obj struct {
 	dir  bool
 	data []byte
+	mode os.FileMode // permission bits
 }
 
 // snapshot lists everything below root (root itself excluded), keyed by slash path.
@@ -45,10 +46,10 @@ func snapshot(root string) map[string]obj {
 		}
 		rel, _ := filepath.Rel(root, p)
 		if info.IsDir() {
-			m[rel] = obj{dir: true}
+			m[rel] = obj{dir: true, mode: info.Mode().Perm()}
 		} else {
 			b, _ := os.ReadFile(p)
-			m[rel] = obj{data: b}
+			m[rel] = obj{data: b, mode: info.Mode().Perm()}
 		}
 		return nil
 	})
@@ -334,7 +335,7 @@ func writeOracles(c wcase, r wresult) []string {
 	// nothing existing was changed or removed, anywhere
 	for k, o := range r.before {
 		n, ok := r.after[k]
-		if !ok || n.dir != o.dir || !bytes.Equal(n.data, o.data) {
+		if !ok || n.dir != o.dir || !bytes.Equal(n.data, o.data) || n.mode != o.mode {
 			add("write/never-overwrites")
 		}
 	}
@@ -439,6 +440,27 @@ func genTree(r *common.RNG) ccase {
 	return c
 }
 
+// names txtar cannot represent (leading/trailing white space, newlines, marker look-alikes)
+var hostileAtoms = []string{" a", "a ", "a\nb", "x\n-- y --", "-- x --", "a\r", "\ta", "a\u00a0", "\u3000", "x --", "-- ", "a\n", "\n", " ", "b\n-- .. --", "c\n-- . --", "ok"}
+
+func genHostileTree(r *common.RNG) ccase {
+	var c ccase
+	seen := map[string]bool{}
+	for i, n := 0, 1+r.Intn(4); i < n; i++ {
+		p := common.Pick(r, hostileAtoms)
+		if r.Chance(1, 3) {
+			p = common.Pick(r, []string{"d", "sub", " d", "e\n"}) + "/" + p
+		}
+		top := strings.Split(p, "/")[0]
+		if seen[p] || seen[top] {
+			continue
+		}
+		seen[p], seen[top] = true, true
+		c.Files = append(c.Files, tfile{Path: p, Data: genContent(r)})
+	}
+	return c
+}
+
 func genContent(r *common.RNG) []byte {
 	switch r.Intn(12) {
 	case 0:
@@ -480,7 +502,8 @@ type cresult struct {
 	cRC     int
 	xRC     int
 	out     map[string]obj
-	outDir  bool // the output directory exists afterwards
+	outDir  bool     // the output directory exists afterwards
+	outside []string // objects outside the output directory that txtar-x changed or created
 }
 
 var binC, binX string
@@ -530,13 +553,32 @@ func runCLI(work string, c ccase) cresult {
 	var res cresult
 	res.archive, res.cRC = runCmd(root, nil, binC, args...)
 	out := filepath.Join(root, "out")
+	var before map[string]obj
 	if c.RelMode {
 		os.MkdirAll(out, 0o777)
+		before = snapshot(root)
 		_, res.xRC = runCmd(out, res.archive, binX)
 	} else {
 		af := filepath.Join(root, "a.txtar")
 		os.WriteFile(af, res.archive, 0o666)
+		before = snapshot(root)
 		_, res.xRC = runCmd(root, nil, binX, "-C", out, af)
+	}
+	after := snapshot(root)
+	for _, k := range sortedKeys(after) {
+		if under(k, "out") {
+			continue
+		}
+		o, ok := before[k]
+		n := after[k]
+		if !ok || o.dir != n.dir || !bytes.Equal(o.data, n.data) || o.mode != n.mode {
+			res.outside = append(res.outside, k)
+		}
+	}
+	for _, k := range sortedKeys(before) {
+		if _, ok := after[k]; !ok {
+			res.outside = append(res.outside, k)
+		}
 	}
 	res.out = snapshot(out)
 	if st, err := os.Stat(out); err == nil && st.IsDir() {
@@ -617,6 +659,35 @@ func cliOracle(c ccase, r cresult) []string {
 		bad = append(bad, "cli/file-missing")
 	}
 	return bad
+}
+
+// ------------------------------------------------------------------ permission bits
+
+const harnessUmask = 0o022
+
+var modelModeDir, modelModeFile os.FileMode
+
+// checkModes compares the permission bits of every object that is new in after with the
+// model's created_mode under the harness umask.
+func (rn *runner) checkModes(before, after map[string]obj, in map[string]string, key string) {
+	for _, k := range sortedKeys(after) {
+		if _, old := before[k]; old {
+			continue
+		}
+		o := after[k]
+		want := modelModeFile
+		if o.dir {
+			want = modelModeDir
+		}
+		rn.res.Count("modes:checked")
+		if o.mode != want {
+			rn.res.Count("mismatch:modes")
+			rn.res.Violate(common.Violation{Kind: "correspondence", Oracle: "modes", Input: in,
+				Model: fmt.Sprintf("%o", want), Impl: fmt.Sprintf("%s has mode %o", k, o.mode), Key: "modes:" + key,
+				Detail: "permission bits of a created object differ from the model's created_mode (perm constants of Write with the umask 022 cleared)"})
+			return
+		}
+	}
 }
 
 // ------------------------------------------------------------------ main
@@ -711,6 +782,7 @@ func (rn *runner) writeCase(c wcase, tag string) {
 			Impl: fmt.Sprintf("result=%s; new objects relative to the sandbox root: %q", r.res, news), Key: fmt.Sprintf("%s:scenario%d:%q", o, c.Scenario, names),
 			Detail: fmt.Sprintf("txtar.Write into %s (scenario %d: see setupScenario; dir form %d): property C15 evaluated directly on the implementation", targetRel, c.Scenario, c.DirForm)})
 	}
+	rn.checkModes(r.before, r.after, input(), key)
 	if want != got {
 		res.Count("mismatch:write")
 		res.Violate(common.Violation{Kind: "correspondence", Oracle: "write", Input: input(),
@@ -727,7 +799,11 @@ func mustJSON(v any) string {
 	return string(b)
 }
 
+// cliCase runs one txtar-c | txtar-x case.  With hostile (file names txtar cannot
+// represent) the round-trip oracle does not apply: only "no crash" and "nothing outside
+// the output directory" are required, and the model is still compared.
 func (rn *runner) cliCase(c ccase, tag string) {
+	hostile := tag == "hostile-names"
 	r := runCLI(rn.f.Work, c)
 	res := rn.res
 	res.Count("cli:src:" + tag)
@@ -744,10 +820,24 @@ func (rn *runner) cliCase(c ccase, tag string) {
 		res.Count("cli:has-unquote-line")
 	}
 	in := map[string]string{"kind": "cli", "case_json": mustJSON(c)}
-	for _, o := range cliOracle(c, r) {
+	if hostile {
+		in["kind"] = "cli-hostile"
+	}
+	var failed []string
+	if !hostile {
+		failed = cliOracle(c, r)
+	}
+	if (r.cRC != 0 && r.cRC != 1) || (r.xRC != 0 && r.xRC != 1) {
+		failed = append(failed, "cli/no-crash")
+	}
+	if len(r.outside) > 0 {
+		failed = append(failed, "cli/txtar-x-contained")
+	}
+	res.Count(fmt.Sprintf("cli:txtar-x-rc=%d", r.xRC))
+	for _, o := range failed {
 		res.Count("oracle-fails:" + o)
 		res.Violate(common.Violation{Kind: "impl-violation", Oracle: o, Input: in,
-			Impl: fmt.Sprintf("txtar-c rc=%d txtar-x rc=%d archive=%q", r.cRC, r.xRC, r.archive),
+			Impl: fmt.Sprintf("txtar-c rc=%d txtar-x rc=%d changed outside=%q archive=%q", r.cRC, r.xRC, r.outside, r.archive),
 			Key:  o + ":" + mustJSON(c.Files), Detail: "txtar-c then txtar-x does not reproduce the archived files"})
 	}
 	// model: the archive bytes
@@ -780,6 +870,7 @@ func (rn *runner) cliCase(c ccase, tag string) {
 	if r.outDir {
 		snap["out"] = obj{dir: true}
 	}
+	rn.checkModes(map[string]obj{}, r.out, in, "cli:"+mustJSON(c))
 	rcs := "ok"
 	if r.xRC != 0 {
 		rcs = "fail"
@@ -796,6 +887,62 @@ func (rn *runner) cliCase(c ccase, tag string) {
 	}
 	if caseSeq%211 == 1 {
 		res.Sample(map[string]any{"kind": "cli", "case": c, "archive": string(r.archive), "extracted_files": nfiles})
+	}
+}
+
+// rootDirCase runs `txtar-c /` inside a chroot holding two files: the names come out
+// absolute (TrimPrefix(path, "//") removes nothing), as the model's entry_name says, and
+// txtar-x refuses the archive.  Skipped with a note when chroot is not permitted.
+func (rn *runner) rootDirCase() {
+	res := rn.res
+	caseSeq++
+	root := filepath.Join(rn.f.Work, fmt.Sprintf("root%d", caseSeq))
+	defer os.RemoveAll(root)
+	os.MkdirAll(filepath.Join(root, "a"), 0o777)
+	os.WriteFile(filepath.Join(root, "a", "b"), []byte("hello\n"), 0o666)
+	os.WriteFile(filepath.Join(root, "top"), []byte("t\n"), 0o666)
+	bin, err := os.ReadFile(binC)
+	if err != nil || os.WriteFile(filepath.Join(root, "txtar-c"), bin, 0o755) != nil {
+		res.Notes = append(res.Notes, "txtar-c /: cannot stage the binary")
+		return
+	}
+	cmd := exec.Command("/txtar-c", "/")
+	cmd.Path = "/txtar-c"
+	cmd.Dir = "/"
+	cmd.SysProcAttr = &syscall.SysProcAttr{Chroot: root}
+	var out bytes.Buffer
+	cmd.Stdout = &out
+	if err := cmd.Run(); err != nil {
+		res.Notes = append(res.Notes, "txtar-c /: not run (chroot or static binary unavailable): "+err.Error())
+		return
+	}
+	res.Case("rootdir", true)
+	res.Count("cli:rootdir")
+	a := txtar.Parse(out.Bytes())
+	var names []string
+	for _, f := range a.Files {
+		names = append(names, f.Name)
+	}
+	var want []string
+	for _, p := range []string{"a/b", "top"} {
+		want = append(want, string(common.UnHex(rn.m.Ask1("entryname "+common.Hex([]byte("/"))+" "+common.Hex([]byte(p))))))
+	}
+	if strings.Join(names, "|") != strings.Join(want, "|") {
+		res.Violate(common.Violation{Kind: "correspondence", Oracle: "entryname", Key: "entryname:/",
+			Input: map[string]string{"kind": "rootdir"}, Model: fmt.Sprintf("%q", want), Impl: fmt.Sprintf("%q", names),
+			Detail: "names in the archive printed by `txtar-c /` (in a chroot) differ from the model's entry_name"})
+	}
+	// txtar-x must refuse it and write nothing
+	x := filepath.Join(rn.f.Work, fmt.Sprintf("rootx%d", caseSeq))
+	os.MkdirAll(filepath.Join(x, "p"), 0o777)
+	defer os.RemoveAll(x)
+	before := snapshot(x)
+	_, rc := runCmd(filepath.Join(x, "p"), out.Bytes(), binX)
+	after := snapshot(x)
+	if rc != 1 || len(after) != len(before) {
+		res.Violate(common.Violation{Kind: "impl-violation", Oracle: "cli/txtar-x-contained", Key: "rootdir-extract",
+			Input: map[string]string{"kind": "rootdir", "archive": out.String()}, Impl: fmt.Sprintf("rc=%d after=%v", rc, sortedKeys(after)),
+			Detail: "txtar-x on the archive of `txtar-c /` (absolute names) must fail and write nothing"})
 	}
 }
 
@@ -940,6 +1087,18 @@ func main() {
 	}
 	defer m.Close()
 	rn := &runner{f: f, res: res, m: m}
+	// permission bits are compared under a fixed umask
+	syscall.Umask(harnessUmask)
+	for _, k := range []struct {
+		kind string
+		dst  *os.FileMode
+	}{{"D", &modelModeDir}, {"F", &modelModeFile}} {
+		var v uint32
+		if _, err := fmt.Sscanf(m.Ask1(fmt.Sprintf("mode %d %s", harnessUmask, k.kind)), "%d", &v); err != nil {
+			res.Notes = append(res.Notes, "model did not answer the mode request: "+err.Error())
+		}
+		*k.dst = os.FileMode(v)
+	}
 
 	// build the two commands from the checked tree (import paths resolve through the
 	// harness module's replace directive; GOFLAGS is inherited)
@@ -968,6 +1127,11 @@ func main() {
 			var c ccase
 			if json.Unmarshal([]byte(in["case_json"]), &c) == nil && cliOK {
 				rn.cliCase(c, tag)
+			}
+		case "cli-hostile":
+			var c ccase
+			if json.Unmarshal([]byte(in["case_json"]), &c) == nil && cliOK {
+				rn.cliCase(c, "hostile-names")
 			}
 		case "path":
 			rn.pathCase(string(common.UnHex(in["p"])))
@@ -1078,6 +1242,18 @@ func main() {
 				}
 			}
 		}
+		// trees with names txtar cannot represent: no round trip is promised, but txtar-x
+		// must not crash and must not touch anything outside its directory
+		nHostile := 150
+		if thorough {
+			nHostile = 3000
+		}
+		for i := 0; i < nHostile; i++ {
+			c := genHostileTree(r)
+			c.Quote, c.All, c.RelMode = r.Bool(), r.Bool(), r.Chance(1, 3)
+			rn.cliCase(c, "hostile-names")
+		}
+		rn.rootDirCase()
 		// the command built on Write refuses escaping archives too
 		for _, evil := range []string{"-- ../x --\nX\n", "-- /abs --\nX\n", "-- a/../../x --\nX\n", "-- .. --\nX\n"} {
 			caseSeq++
